@@ -2,15 +2,15 @@
 # usage: importbenign.sh <Cxx> <worktree>
 # copies <worktree>/SEED/{A..D}/ to /verif/benign/<Cxx>-bn<X>/, verifies each in a scratch worktree (applies, gofmt clean,
 # touched packages build, their existing tests pass), then runs the property's quick check against each: it must stay silent.
-P=$1; SRC=$2
+P=$1; SRC=$2; TAG=${3:-bn}
 WT=/tmp/wt/confirm_bn_$P
 cd /repo && git worktree remove --force $WT 2>/dev/null; git worktree add -q --detach $WT HEAD || exit 2
 cat > $WT/.perf_overlay.json <<J
-{"Replace": {"$WT/pkg/koordlet/util/perf_group/perf_group_linux.go": "/tmp/wt/perfstub/perf_group_stub.go"}}
+{"Replace": {"$WT/pkg/koordlet/util/perf_group/perf_group_linux.go": "/verif/tools/perfstub/perf_group_stub.go"}}
 J
 OV="-overlay $WT/.perf_overlay.json"
 for d in $SRC/SEED/*/; do
-  X=$(basename $d); ID=$P-bn$X; D=/verif/benign/$ID
+  X=$(basename $d); ID=$P-$TAG$X; D=/verif/benign/$ID
   [ -f $d/patch.diff ] || continue
   mkdir -p $D && cp $d/patch.diff $d/README.md $D/ 2>/dev/null
   cd $WT && git reset -q --hard && git clean -fdq -- pkg apis cmd
@@ -27,7 +27,7 @@ for d in $SRC/SEED/*/; do
   tail -1 $D/confirm.txt
 done
 cd /repo && git worktree remove --force $WT
-for D in /verif/benign/$P-bn*; do
+for D in /verif/benign/$P-$TAG*; do
   ID=$(basename $D)
   cd /repo; [ -n "$(git status --porcelain)" ] && { echo "repo dirty"; exit 2; }
   git apply $D/patch.diff 2>/dev/null || { echo "BENIGN $ID: patch does not apply"; continue; }
